@@ -44,9 +44,16 @@ func (b *Builder) AddWithSequence(key, value []byte, seqNum uint64) error {
 			string(key), string(b.lastKey))
 	}
 
+	// A nil value marks a tombstone; an empty but non-nil value is a regular value
+	// and has to stay non-nil in the copy
+	var valueCopy []byte
+	if value != nil {
+		valueCopy = append([]byte{}, value...)
+	}
+
 	b.entries = append(b.entries, Entry{
-		Key:         append([]byte(nil), key...),   // Make copies to avoid references
-		Value:       append([]byte(nil), value...), // to external data
+		Key:         append([]byte(nil), key...), // Make copies to avoid references
+		Value:       valueCopy,                   // to external data
 		SequenceNum: seqNum,
 	})
 
